@@ -281,8 +281,11 @@ class Dm1:
             self._dtc_dic_list.append( {'spn': dtc.spn, 'fmi': dtc.fmi, 'oc': dtc.oc } )
 
     def _notify_subscribers(self, sa, timestamp):
-        for callback in self._subscribers:
-            callback(sa, self.lamp_status.copy(), self._dtc_dic_list.copy(), timestamp)
+        # iterate over a copy: a callback may unsubscribe itself or others (which used to make the following
+        # subscriber miss this message); a subscriber removed meanwhile is not called any more
+        for callback in list(self._subscribers):
+            if callback in self._subscribers:
+                callback(sa, self.lamp_status.copy(), self._dtc_dic_list.copy(), timestamp)
 
 
 class Dm11:
